@@ -287,7 +287,70 @@ def r53_54(db, ctx):
                 d = X.canon(norm(R.operand(t['discr'])))
                 if '_mm256_testz_si256' in d or ('Iterator::any' in d):
                     tests.append(bi)
+                elif bi not in tests:
+                    # the error vector spilled to a local array and the array compared with an all-zero array (`flags != [0; N]`)
+                    dn = norm(R.operand(t['discr']))
+                    mm = m(('call~', ('array::equality::ne', 'array::equality::eq', 'PartialEq::ne', 'PartialEq::eq'), ('$a', '$b')), dn)
+                    if mm is not None:
+                        spilled = set()
+                        for b2, t2 in f.calls():
+                            if (f.callee_short(t2) or '').rsplit('::', 1)[-1] in ('_mm_storeu_si128', '_mm256_storeu_si256', '_mm_store_si128', '_mm256_store_si256'):
+                                a0 = norm(R.operand(t2['args'][0]))
+                                for x in X.walk(a0):
+                                    if x[0] == 'v' and f.local_ty(x[1]).startswith('['):
+                                        spilled.add(x)
+                        sides = [mm['$a'], mm['$b']]
+                        arr = [x for x in sides if x in spilled]
+                        other = [x for x in sides if x not in spilled]
+                        zero = False
+                        if len(arr) == 1 and len(other) == 1:
+                            o = other[0]
+                            if o[0] == 'promoted':
+                                pe = common.promoted_expr(db, o[1], o[2])
+                                o = norm(pe) if pe is not None else o
+                            zero = (o[0] == 'repeat' and norm(o[1]) == ('k', 0)) or (o[0] == 'agg' and all(norm(z) == ('k', 0) for z in o[2]))
+                        if zero:
+                            tests.append(bi)
         good = len(tests) == 1 and oks and all(f.dominates(tests[0], o) for o in oks)
+        # NEON design: the four error vectors are OR-ed into one and tested 64 bits at a time (`lane 0 != 0 || lane 1 != 0`)
+        lane_calls = [(bi, t) for bi, t in f.calls() if (f.callee_short(t) or '').endswith('vgetq_lane_u64')]
+        if not tests and lane_calls:
+            lanes_tested = set()
+            leaves_ok = True
+            for bi, t in lane_calls:
+                try:
+                    lanes_tested.add(int((t.get('gargs') or ['?'])[0]))
+                except ValueError:
+                    leaves_ok = False
+                arg = norm(R.operand(t['args'][0]))
+                leaves, other = [], []
+
+                def ortree(e):
+                    if e[0] == 'call' and e[1].endswith(('vorrq_u8', 'vorrq_u64')) and len(e[2]) == 2:
+                        ortree(e[2][0]); ortree(e[2][1])
+                    elif e[0] == 'call' and e[1].rsplit('::', 1)[-1].startswith('vreinterpretq_') and len(e[2]) == 1:
+                        ortree(e[2][0])
+                    elif e[0] == 'fld' and e[1][0] == 'v':
+                        leaves.append((e[1][1], e[2]))
+                    else:
+                        other.append(e)
+                ortree(arg)
+                if other or len({l for l, _ in leaves}) != 1 or sorted(k for _, k in leaves) != ['0', '1', '2', '3']:
+                    leaves_ok = False
+            tblocks = []
+            for bi in range(len(f.blocks)):
+                t = f.term(bi)
+                if t['k'] == 'switch':
+                    d = norm(R.operand(t['discr']))
+                    if m(('bin', 'Ne', ('call~', 'vgetq_lane_u64', '_'), ('k', 0)), d) is not None:
+                        tblocks.append(bi)
+            first = [b for b in tblocks if all(f.dominates(b, o) for o in tblocks)]
+            if lanes_tested == {0, 1} and leaves_ok and len(tblocks) == 2 and first and oks and all(f.dominates(first[0], o) for o in oks):
+                tests = [first[0]]
+                good = True
+            else:
+                ctx.fail('R5.3', f, 'error test', f'the 64-bit lane tests cover lanes {sorted(lanes_tested)} of an OR over error fields (complete={leaves_ok}); '
+                         'expected both lanes of the OR of all four error vectors, tested before every Ok')
         early = None
         for bi in range(len(f.blocks)):
             t = f.term(bi)
@@ -322,6 +385,30 @@ def r53_54(db, ctx):
                 a_ = norm(R.operand(t['args'][0]))
                 if a_[0] == 'elem' and X.canon(a_[1]) in ('core::slice::iter(arg1)',):
                     rs_ok = True
+                # index form: seq[i] for i in 0..seq.len()
+                bi_ = m(('idx', ('p', 1), ('elem', ('agg', '_', (('k', 0), '$hi')), '$L')), a_)
+                if bi_ is not None and (common.is_len_of(bi_['$hi'], ('p', 1)) or (bi_['$hi'][0] == 'v' and f.local_name(bi_['$hi'][1]) == 'l')):
+                    rs_ok = True
+            for bi, t in f.calls():
+                recv_ok = False
+                if (f.callee_short(t) or '').endswith('Iterator::try_for_each'):
+                    from lm import prov
+                    recv = R.operand(t['args'][0])
+                    if X.canon(norm(recv)) == 'core::slice::iter(arg1)':
+                        recv_ok = True
+                    else:
+                        # the iterator lives in a `&mut` local: look at what produced it
+                        nr = norm(recv)
+                        if nr[0] == 'v':
+                            ds = f.defs().get(nr[1], [])
+                            vals = [norm(R.call(x) if si == 'term' else R.rvalue(x)) for _, si, x in ds]
+                            recv_ok = bool(vals) and all(X.canon(v_) == 'core::slice::iter(arg1)' for v_ in vals)
+                if recv_ok:
+                    for g in db.closures_of(f):
+                        Rg = X.Rec(g)
+                        for _, tg in g.calls():
+                            if (g.callee_short(tg) or '').endswith('Symbol::from_ascii') and norm(Rg.operand(tg['args'][0])) in (('p', 2), ('fld', ('p', 2), '0')):
+                                rs_ok = True
             # the `?`: an Err return reachable from the rescan
             errs = [bi for bi, blk in enumerate(f.blocks) for st in blk['stmts'] if st['k'] == 'assign' and st['p']['l'] == 0 and st['rv']['k'] == 'agg' and st['rv'].get('variant') == 'Err']
             prop = bool(errs) or any((f.callee_short(t) or '').endswith('from_residual') and t['dest']['l'] == 0 for _, t in f.calls())
@@ -344,13 +431,41 @@ def r53_54(db, ctx):
                 # result propagated: a Try::branch on the call result
                 tb = t.get('target')
                 propagated = any((f.callee_short(t2) or '').endswith('Try::branch') and f.dominates(bi, b2_) for b2_, t2 in f.calls())
-                if lt and propagated:
+                inv = False
+                if not lt:
+                    inv = tail_index_invariant(db, f, b1['$i'][1])
+                if (lt or inv) and propagated:
                     ok4 = True
                 else:
-                    why = f'guard i < len: {bool(lt)}, result propagated: {propagated}'
+                    why = f'guard i < len: {bool(lt)} (loop invariant i <= len: {inv}), result propagated: {propagated}'
             else:
                 why = f'tail called on {X.show(a1, 60)} / {X.show(a2, 60)}'
         (ctx.ok if ok4 else ctx.fail)('R5.4', f, 'generic tail on seq[i..], dst[i..] under i < len, result propagated with ?', *([['same i for source and destination']] if ok4 else [why]))
+
+
+def tail_index_invariant(db, f, i_local):
+    """i <= len(seq) holds after the block loop when: i starts at 0, the loop guard is  i + c < len  or  i + c <= len,  and i advances by s <= c per iteration."""
+    from . import C06
+    fE, E, err = KN.evaluate(db, f.path)
+    if E is None:
+        return False
+    for H, L in E.loops.items():
+        if L.iter is not None or L.opaque:
+            continue
+        cr = [c for c in C06.counter_relation(E, H) if c[0] == i_local]
+        if len(cr) != 1:
+            continue
+        cl, cinit, cstep = cr[0]
+        if norm(cinit) != ('k', 0):
+            continue
+        me = X.canon(('phi', H, cl))
+        for cnd, truth in L.conds:
+            if not (isinstance(cnd, tuple) and cnd[0] == 'bin' and cnd[1] in ('Lt', 'Le') and truth):
+                continue
+            la, lb = X.lin(cnd[2]), X.lin(cnd[3])
+            if la.get(me) == 1 and set(la) <= {me, ''} and common.is_len_of(cnd[3]) and cstep <= la.get('', 0):
+                return True
+    return False
 
 
 def C09_ok_blocks(f):
